@@ -343,11 +343,26 @@ impl Writer {
 
         // Success - fsync touched files
         let mut fsynced = HashSet::new();
+        let mut flush_error = None;
         for (blk, _, _) in write_plan.iter() {
             if !fsynced.contains(&blk.file_path) {
-                blk.mmap.flush()?;
+                if let Err(e) = blk.mmap.flush() {
+                    flush_error = Some(e);
+                    break;
+                }
                 fsynced.insert(blk.file_path.clone());
             }
+        }
+        if let Some(e) = flush_error {
+            // A batch that cannot be flushed has failed: take all of it back, like a failed write
+            for (w_blk, w_off, _) in write_plan.iter() {
+                let _ = w_blk.zero_range(*w_off, PREFIX_META_SIZE as u64);
+            }
+            *cur_offset = revert_info.original_offset;
+            for block_id in revert_info.allocated_block_ids {
+                FileStateTracker::set_block_unlocked(block_id as usize);
+            }
+            return Err(e);
         }
 
         // NOW update the writer's offset to make data visible to readers
